@@ -30,3 +30,11 @@ package unixfsnode
 //@ ensures not-dagpb-unchanged: !typeis(maybePBNodeRoot, "*dagpb._PBNode") ==> result == maybePBNodeRoot && err == nil
 //@ func unixfsnode.nonLazyReify
 //@ ensures not-dagpb-unchanged: !typeis(maybePBNodeRoot, "*dagpb._PBNode") ==> result == maybePBNodeRoot && err == nil
+
+// Behavioural subtyping: these node types are maps / byte strings, never lists, so they answer
+// Kind() with a non-list kind and have no list iterator (the datamodel.Node interface contract
+// for both methods is checked here under that stated domain).
+//@ func (*unixfsnode._PathedPBNode).Kind
+//@ domain not-a-list: !isList(n)
+//@ func (*unixfsnode._PathedPBNode).ListIterator
+//@ domain not-a-list: !isList(n)
